@@ -15,6 +15,9 @@
 (*         shows), and a completed swap / get returned the old / current   *)
 (*         bit.  A step of a finished thread is logged as "na" and must be *)
 (*         one in the specification too.                                   *)
+(*  free   the threads ran unscheduled, many times: every distinct outcome *)
+(*         must be one the specification guarantees for every interleaving *)
+(*         (see FreeWhy)                                                   *)
 (*  end    every thread of the specification is done; the final memory,    *)
 (*         get_atomic of every field, get of every bit, the non-atomic     *)
 (*         forms after conversion, job outcomes and returned values are    *)
@@ -111,11 +114,12 @@ WordsSame(logged, m, n) ==
     /\ \A k \in 1 .. Len(logged) : SeqSet(logged[k]) = (IF k - 1 < n THEN m[k - 1] ELSE {})
     /\ \A k \in Low(n) : k + 1 > Len(logged) => m[k] = {}
 
-PartsEq(p) ==
+PartsEqAt(p, m) ==
     /\ p.n = I.n
-    /\ p.l.lw = Width /\ p.l.llen = I.flen /\ WordsSame(p.l.low, mem.f, I.nfw)
-    /\ p.h.hlen = I.blen /\ WordsSame(p.h.high, mem.b, I.nbw)
+    /\ p.l.lw = Width /\ p.l.llen = I.flen /\ WordsSame(p.l.low, m.f, I.nfw)
+    /\ p.h.hlen = I.blen /\ WordsSame(p.h.high, m.b, I.nbw)
     /\ p.vals = [i \in 1 .. I.n |-> JobOf(CHOOSE tk \in Jobs : JobOf(tk).idx = i - 1).x]
+PartsEq(p) == PartsEqAt(p, mem)
 
 EfbEndWhy(ev) ==
     IF ev.out # "ret" THEN "outcome"
@@ -138,6 +142,66 @@ EndWhy(ev) ==
     ELSE IF ~OutsEq(ev.outs) THEN "outs"
     ELSE IF DistinctFields /\ ~NoInterferenceAt(mem) THEN "interference"
     ELSE "ok"
+
+\* ----- free ----------------------------------------------------------------
+\* The threads ran unscheduled (real races, `reps` times from the same initial
+\* memory); the event lists the distinct outcomes observed: final memory and
+\* the outcome / returned bit of every job.  No interleaving was recorded, so
+\* each outcome is judged by what every interleaving of the specification
+\* guarantees: written fields hold their writer's last value, private bits
+\* their writer's last value, nothing else changed (NoInterferenceAt, for
+\* programs writing distinct fields), and the calls on every bit have a
+\* linearization explaining the returned values and the final bit.
+\* (mode efb: the vectors are private; an outcome is the built structure,
+\* which must be the sequential execution (DirectSeqMem).)
+FreshState == /\ mem = InitMem
+              /\ \A t \in Threads : jix[t] = NextJob(t, 1) /\ pc[t] = PcAt(t, jix[t])
+
+RetOfOuts(o) == [t \in Threads |-> [k \in 1 .. Len(Prog(t)) |-> o[t][k][2]]]
+OutsShapeOK(o) ==
+    /\ Len(o) = Len(I.prog)
+    /\ \A t \in Threads :
+         /\ Len(o[t]) = Len(Prog(t))
+         /\ \A k \in 1 .. Len(Prog(t)) :
+              LET j == Prog(t)[k] IN
+              /\ o[t][k][1] = (IF InDomain(j) THEN "ret" ELSE "panic")
+              /\ IF InDomain(j) /\ j.kind \in {"swapbit", "getbit"}
+                 THEN o[t][k][2] \in {<<TRUE>>, <<FALSE>>} ELSE o[t][k][2] = <<>>
+MemOfLogged(x) == [f |-> [k \in Low(I.nfw) |-> SeqSet(x.fmem[k + 1])],
+                   b |-> [k \in Low(I.nbw) |-> SeqSet(x.bmem[k + 1])]]
+MemShapeOK(x) ==
+    /\ Len(x.fmem) = I.nfw /\ \A k \in 1 .. I.nfw : SeqSet(x.fmem[k]) \subseteq Low(FW)
+    /\ Len(x.bmem) = I.nbw /\ \A k \in 1 .. I.nbw : SeqSet(x.bmem[k]) \subseteq Low(BW)
+TouchedBits == {BitPos(JobOf(tk)) : tk \in BitJobs}
+
+OutcomeWhy(x) ==
+    IF ~OutsShapeOK(x.outs) THEN "free-outs"
+    ELSE IF I.mode = "efb"
+    THEN (IF ~PartsEqAt(x.cb, DirectSeqMem) THEN "free-ef-concurrent" ELSE "ok")
+    ELSE IF ~MemShapeOK(x) THEN "free-mem-shape"
+    ELSE LET m == MemOfLogged(x)  rt == RetOfOuts(x.outs) IN
+         IF ~NoInterferenceAt(m) THEN "free-interference"
+         ELSE IF \E p \in TouchedBits : ~LinearizableOnAt(p, m, rt) THEN "free-linearizability"
+         ELSE "ok"
+
+FreeWhy(ev) ==
+    IF ev.out # "ret" THEN "outcome"
+    ELSE IF ~FreshState THEN "free-not-first"
+    ELSE IF ~DistinctFields \/ \E p \in TouchedBits : Cardinality(BitOpsOn(p)) > 6 THEN "bad-script"
+    ELSE IF ev.outcomes = <<>> /\ I.mode # "efb" THEN "free-empty"
+    ELSE LET bad == {k \in 1 .. Len(ev.outcomes) : OutcomeWhy(ev.outcomes[k]) # "ok"} IN
+         IF bad = {} THEN "ok" ELSE OutcomeWhy(ev.outcomes[CHOOSE k \in bad : \A k2 \in bad : k <= k2])
+
+\* the state after a free event: every thread done, the last outcome
+FreeInstall(ev) ==
+    LET x == ev.outcomes[Len(ev.outcomes)] IN   \* (efb: the last builder is built and logged by "end")
+    /\ mem' = (IF I.mode = "efb" THEN DirectSeqMem ELSE MemOfLogged(x))
+    /\ pc' = [t \in Threads |-> "done"]
+    /\ jix' = [t \in Threads |-> Len(Prog(t)) + 1]
+    /\ seen' = [t \in Threads |-> {}]
+    /\ ret' = (IF I.mode = "efb" THEN [t \in Threads |-> [k \in 1 .. Len(Prog(t)) |-> <<>>]]
+                ELSE RetOfOuts(x.outs))
+    /\ UNCHANGED inst
 
 BeginWhy(ev, ii) ==
     IF ev.out # "ret" THEN "outcome"
@@ -170,6 +234,10 @@ Step ==
             IF w = "ok"
             THEN /\ (IF pc[ev.t] = "done" THEN UNCHANGED avars ELSE Install(ev.t, Eff(ev.t)))
                  /\ skip' = FALSE
+            ELSE Mismatch(ev, w) /\ UNCHANGED avars
+       ELSE IF ev.op = "free"
+       THEN LET w == FreeWhy(ev) IN
+            IF w = "ok" THEN FreeInstall(ev) /\ skip' = FALSE
             ELSE Mismatch(ev, w) /\ UNCHANGED avars
        ELSE IF ev.op = "end"
        THEN LET w == EndWhy(ev) IN
